@@ -363,7 +363,7 @@ def tidal_potential(
         # 5n
         (-845. / 24.) * e3 * cos2_sin2,
         # 2o + n
-        ((-1. / 12.) * e + (1. / 96.) * e3) * sin_o_4 + (1. / 288.) * e3 + \
+        ((-1. / 12.) * e + (1. / 96.) * e3) * sin_o_4 + (1. / 288.) * e3 * cos_o_4 + \
             ((1. / 2.) * e + (9. / 16.) * e3) * cos2_sin2,
         # 2o + 2n
         ((1. / 6.) - (5. / 12.) * e2) * sin_o_4 + (3. / 4.) * e2 * cos2_sin2,
